@@ -227,6 +227,104 @@ Definition sec_poly_fl (A : arith) (ab : list (C * C)) (x : C) : option C :=
   | None => None
   end.
 
+(* specification value of the product form:  P(x) = - S(x) prod (x - b_i) *)
+Fixpoint sec_prodC (ab : list (C * C)) (x : C) : C :=
+  match ab with
+  | [] => RtoC 1
+  | (_, b) :: r => ((x - b) * sec_prodC r x)%C
+  end.
+Definition sec_poly_exact (ab : list (C * C)) (x : C) : C := (- (sec_exact ab x * sec_prodC ab x))%C.
+
+(* ------------------------------------------------------------------ (2b) the error ESTIMATES as coded *)
+(* The estimates are computed in rounded REAL arithmetic (double for the f variants, DPE otherwise):
+   radd/rmul on non-negative reals, rmod = cplx_mod / cdpe_mod / mpc_rmod (modulus of a complex, rounded).
+   rstd_model eta: every result within the factor 1 -+ eta of the exact one. *)
+Record rarith := { radd : R -> R -> R; rmul : R -> R -> R; rmod : C -> R }.
+Definition rstd_model (eta : R) (Ra : rarith) : Prop :=
+  0 <= eta /\
+  (forall a b, 0 <= a -> 0 <= b -> (1 - eta) * (a + b) <= radd Ra a b <= (1 + eta) * (a + b)) /\
+  (forall a b, 0 <= a -> 0 <= b -> (1 - eta) * (a * b) <= rmul Ra a b <= (1 + eta) * (a * b)) /\
+  (forall z, (1 - eta) * Cmod z <= rmod Ra z <= (1 + eta) * Cmod z).
+Definition exact_rarith : rarith := {| radd := Rplus; rmul := Rmult; rmod := Cmod |}.
+
+(* mps_secular_{f,d,m}eval_with_error: the loop of sec_sum_fl with the running estimate
+     error += |fl(a_i / fl(x - b_i))| * (i + 2)          (i = 0 .. n-1)
+   then  value -= 1; error += 1; error *= u4    (u4 = 4 DBL_EPSILON, resp. 4 * 2^(1-wp)) *)
+Fixpoint sec_est_sum (A : arith) (Ra : rarith) (ab : list (C * C)) (x acc : C) (i : nat) (e : R)
+  : option (C * R) :=
+  match ab with
+  | [] => Some (acc, e)
+  | (a, b) :: r =>
+      let d := fsub A x b in
+      if Ceq_dec d (RtoC 0) then None
+      else let t := fdiv A a d in
+           sec_est_sum A Ra r x (fadd A acc t) (S i) (radd Ra e (rmul Ra (rmod Ra t) (INR (i + 2))))
+  end.
+Definition sec_est_fl (A : arith) (Ra : rarith) (u4 : R) (ab : list (C * C)) (x : C) : option (C * R) :=
+  match sec_est_sum A Ra ab x (RtoC 0) 0 0 with
+  | Some (s, e) => Some (fsub A s (RtoC 1), rmul Ra (radd Ra e 1) u4)
+  | None => None
+  end.
+(* mps_secular_poly_{f,d,m}eval_with_error (after fix fc53bd23): for every i
+     ctmp = fl(x - b_i); value *= ctmp; error *= |ctmp|
+   and finally value *= -1 *)
+Fixpoint sec_poly_est_loop (A : arith) (Ra : rarith) (ab : list (C * C)) (x v : C) (e : R) : C * R :=
+  match ab with
+  | [] => (v, e)
+  | (_, b) :: r => let d := fsub A x b in sec_poly_est_loop A Ra r x (fmul A v d) (rmul Ra e (rmod Ra d))
+  end.
+Definition sec_poly_est_fl (A : arith) (Ra : rarith) (u4 : R) (ab : list (C * C)) (x : C) : option (C * R) :=
+  match sec_est_fl A Ra u4 ab x with
+  | Some (s, e) => let ve := sec_poly_est_loop A Ra ab x s e in
+                   Some (fmul A (fst ve) (RtoC (-1)), snd ve)
+  | None => None
+  end.
+(* the same estimate without any rounding: u4 (sum (i+2)|a_i|/|x-b_i| + 1) prod |x-b_i| *)
+Fixpoint sec_wabs (ab : list (C * C)) (x : C) (i : nat) : R :=
+  match ab with
+  | [] => 0
+  | (a, b) :: r => INR (i + 2) * (Cmod a / Cmod (x - b)%C) + sec_wabs r x (S i)
+  end.
+Definition sec_poly_est_R (u4 : R) (ab : list (C * C)) (x : C) : R :=
+  (sec_wabs ab x 0 + 1) * u4 * Cmod (sec_prodC ab x).
+(* mps_chebyshev_poly_meval, the estimate AS CODED (it never looks at c_i for i >= 2):
+     error = |fl(c_1 x)|;  for i >= 2:  p = fl(2 fl(x t1)); rtmp = |p| + |t0|; t = fl(p - t0); error += rtmp * |x|
+     error *= u2            (u2 = 2 * 2^-wp) *)
+Fixpoint cheb_est_loop (A : arith) (Ra : rarith) (cs : list C) (x : C) (ax : R) (t0 t1 : C) (e : R) : R :=
+  match cs with
+  | [] => e
+  | _ :: rest =>
+      let p := fmul A (fmul A x t1) (ktwo C (RtoC 1) (fadd A)) in
+      let t := fsub A p t0 in
+      cheb_est_loop A Ra rest x ax t1 t (radd Ra e (rmul Ra (radd Ra (rmod Ra p) (rmod Ra t0)) ax))
+  end.
+Definition cheb_est_fl (A : arith) (Ra : rarith) (u2 : R) (cs : list C) (x : C) : R :=
+  match cs with
+  | [] => 0
+  | _ :: l' => match l' with
+               | [] => 0
+               | c1 :: rest => rmul Ra (cheb_est_loop A Ra rest x (rmod Ra x) (RtoC 1) x (rmod Ra (fmul A c1 x))) u2
+               end
+  end.
+(* the REPAIRED estimate (fixes/C14_chebyshev_meval_estimate.patch): the majorant recurrence
+     tm_0 = 1, tm_1 = |x|, tm_{k+1} = 2|x| tm_k + tm_{k-1}  in rounded real arithmetic,
+     error = (|c_0| + |c_1| |x| + sum_{k>=2} |c_k| tm_k) * ud        (ud = 4 n 2^-wp) *)
+Fixpoint cheb_fix_loop (Ra : rarith) (cs : list C) (r t0 t1 e : R) : R :=
+  match cs with
+  | [] => e
+  | c :: rest => let t := radd Ra (rmul Ra (rmul Ra r t1) 2) t0 in
+                 cheb_fix_loop Ra rest r t1 t (radd Ra e (rmul Ra (rmod Ra c) t))
+  end.
+Definition cheb_fix_est (Ra : rarith) (ud : R) (cs : list C) (x : C) : R :=
+  match cs with
+  | [] => 0
+  | c0 :: l' => match l' with
+                | [] => 0
+                | c1 :: rest => let r := rmod Ra x in
+                    rmul Ra (cheb_fix_loop Ra rest r 1 r (radd Ra (rmod Ra c0) (rmul Ra (rmod Ra c1) r))) ud
+                end
+  end.
+
 (* ------------------------------------------------------------------ (3) exact twin *)
 (* Gaussian rationals with ONE common denominator: (a, b, d) stands for (a + b i)/d.  (With a
    pair of independent rationals and no gcd the denominators square at every complex product;
@@ -367,4 +465,47 @@ Definition eval_sec_q (ab : list (QC * QC)) (x : QC) : option (QC * QC * Q) :=
       let pr := sec_prod_q ab x in
       Some (s, qc_mul (qc_sub qc0 s) pr, (sec_abs_q ab x + 1) * qc_mod_up pr)
   | None => None
+  end.
+
+(* the estimates as coded, without their roundings (the tie compares the exported estimates with these):
+   secular    (sum (i+2)|a_i|/|x-b_i| + 1) prod|x-b_i|          (times u4)
+   Chebyshev  |c_1 x| + sum_{i>=2} (|2 x T_{i-1}(x)| + |T_{i-2}(x)|) |x|     (times u2),
+              together with the same sum over the majorants T~ (scale of the rounding errors of the
+              computed T_k, used by the check as the absolute tolerance of the comparison) *)
+Definition qc2 : QC := (2%Z, 0%Z, 1%positive).
+(* modulus of a value with very long numerator/denominator (the exact T_k(x)), used by the tie only: numerators
+   and denominator are first cut to about 140 bits (numerators rounded away from zero, denominator towards
+   zero), so the result is still an upper bound, with an absolute excess below 2^-139 *)
+Definition qc_mod_up2 (a : QC) : Q :=
+  let k := (Z.max 0 (Z.log2 (Zpos (qc_den a)) - 140))%Z in
+  let r := (Z.shiftr (Z.abs (qc_re a)) k + 1)%Z in
+  let i := (Z.shiftr (Z.abs (qc_im a)) k + 1)%Z in
+  let d := Z.to_pos (Z.shiftr (Zpos (qc_den a)) k) in
+  match k with
+  | Z0 => qc_mod_up a
+  | _ => qup (qsqrt_up (Qmake (r * r + i * i) (d * d)))
+  end.
+Fixpoint sec_wabs_q (ab : list (QC * QC)) (x : QC) (i : Z) : Q :=
+  match ab with
+  | [] => 0
+  | (a, b) :: r => qup (inject_Z i * qup (qsqrt_up (qc_norm2 a / qc_norm2 (qc_sub x b))) + sec_wabs_q r x (i + 1))
+  end.
+Definition sec_est_q (ab : list (QC * QC)) (x : QC) : Q :=
+  (sec_wabs_q ab x 2 + 1) * qc_mod_up (sec_prod_q ab x).
+Fixpoint cheb_est_loop_q (cs : list QC) (x : QC) (ax : Q) (t0 t1 : QC) (tm0 tm1 : Q) (e m : Q) : Q * Q :=
+  match cs with
+  | [] => (e, m)
+  | _ :: rest =>
+      let p := qc_mul (qc_mul x t1) qc2 in
+      let t := qc_sub p t0 in
+      let tm := qup (2 * ax * tm1 + tm0) in
+      cheb_est_loop_q rest x ax t1 t tm1 tm (qup (e + (qc_mod_up2 p + qc_mod_up2 t0) * ax)) (qup (m + tm * ax))
+  end.
+Definition cheb_est_q (cs : list QC) (x : QC) : Q * Q :=
+  match cs with
+  | _ :: c1 :: rest =>
+      let ax := qc_mod_up x in
+      let e0 := qc_mod_up (qc_mul c1 x) in
+      cheb_est_loop_q rest x ax qc1 x 1 ax e0 e0
+  | _ => (0, 0)
   end.
